@@ -1,10 +1,8 @@
 INIT GenInit
 NEXT GenNext
-CONSTANT Frames = {0, 1, 32}
+CONSTANT Frames = {0, 1, 512}
 CONSTANT Times = {0, 1, 2, 3, 4, 5}
-CONSTANT Ws = {0, 1, 2}
-CONSTANT MaxLen = 4
-CONSTANT W0MaxLen = 4
+CONSTANT LenOf <- L444
 CONSTANT TicksPerMs = 2
 CONSTANT FullRx = FALSE
 CONSTANT Receivers = {0, 1}
